@@ -12,4 +12,14 @@ def obligations(ctx, cfg):
     return [TrackerRemove(ctx, n, k),
             StepAck(ctx, n, 2, k, 'ack-local', 'C02.b'),
             StepPull(ctx, 2, 2, 0, 'ack-local', 'C02.c-pull'),
-            StepPost(ctx, 2, 2, 2, 'ack-local', 'C02.c-post')]
+            StepPost(ctx, 2, 2, 2, 'ack-local', 'C02.c-post'),
+            _streaming(ctx)]
+
+
+def _streaming(ctx):
+    # C02.e: acks inside a StreamingPull request are forwarded unchanged, in order, and applied before the
+    # request's deadline modifications (so an id that is both acked and nacked in one request stays acked)
+    from props.C17 import StreamingControl
+    ob = StreamingControl(ctx)
+    ob.id = 'C02.e'
+    return ob
